@@ -1,5 +1,5 @@
 """C07 -- Concurrent transfers are independent and the listening port stays live."""
-import json, struct
+import json, struct, tempfile
 import lib
 from tftpnet import RfcClient, run_network
 from tftpdrv import addr_of
@@ -167,6 +167,60 @@ def step_transfer(ctx, sim, t, now, serials, la, lb, order):
     return True
 
 
+def own_ports(ctx):
+    """'each run on their own server port': the sub-servers of simultaneously live transfers (created exactly as do_RRQ
+    creates them) must hold pairwise different UDP ports, none of them the listening port.  The kernel picks the port, so
+    this is observed on real sockets, with enough live transfers that a port handed out twice cannot be missed."""
+    import io, resource
+    from nobodd import tftpd
+    soft, hard = resource.getrlimit(resource.RLIMIT_NOFILE)
+    want = 3000 if ctx.thorough else 1500
+    try:
+        resource.setrlimit(resource.RLIMIT_NOFILE, (min(hard, max(soft, want + 500)), hard))
+    except (ValueError, OSError):
+        pass
+    limit = resource.getrlimit(resource.RLIMIT_NOFILE)[0]
+    n = max(50, min(want, limit - 300))
+    with tempfile.TemporaryDirectory() as d:
+        srv = tftpd.SimpleTFTPServer(('127.0.0.1', 0), d)
+        subs = []
+        class Src:                       # TFTPClientState opens its source through path.open('rb')
+            def open(self, mode='rb'):
+                return io.BytesIO(b'x')
+        src = Src()
+        try:
+            main_port = srv.server_address[1]
+            for i in range(n):
+                state = tftpd.TFTPClientState(('127.0.0.1', 20000 + i), src)
+                try:
+                    subs.append(tftpd.TFTPSubServer(srv, state))
+                except OSError as e:
+                    ctx.note = f'own_ports stopped at {i} sub-servers: {e}'
+                    break
+            ports = [x.server_address[1] for x in subs]
+            ctx.case(('own-ports', len(ports)), len(ports) >= 50, 'own-ports')
+            ctx.stat('own-ports-live-subservers', len(ports))
+            seen = {}
+            for k, p in enumerate(ports):
+                if p in seen or p == main_port:
+                    ctx.violation('tftpd.concurrent/shared-port',
+                                  f'with {len(ports)} transfers live, transfer #{k} was given UDP port {p}, which '
+                                  f'{"the listening socket" if p == main_port else "live transfer #%d" % seen[p]} already holds '
+                                  f'({len(ports) - len(set(ports))} ports handed out twice in all)',
+                                  dict(live=len(ports), port=p, first=seen.get(p), second=k,
+                                       reuse_address=bool(getattr(tftpd.TFTPSubServer, 'allow_reuse_address', False)),
+                                       reuse_port=bool(getattr(tftpd.TFTPSubServer, 'allow_reuse_port', False))))
+                    break
+                seen[p] = k
+        finally:
+            for x in subs:
+                try:
+                    x.server_close()
+                except Exception:
+                    pass
+            srv.server_close()
+
+
 def run(ctx, build):
     R = ctx.try_runner('Tftp')
     lib.corr_modules(ctx, SPEC, ['registry_corr'])     # the concurrent registry: real TFTPSubServers under a scheduler shim vs the model
@@ -247,6 +301,9 @@ def run(ctx, build):
     #      the client keeps to must still complete (real threads and sockets)
     from props import c01
     c01.real_retransmitted_request(ctx)
+
+    # ---- every transfer on its OWN server port: many live sub-servers, real sockets ------------
+    own_ports(ctx)
 
     # ---- real threads, real UDP ---------------------------------------------------------------
     runs = 8 if ctx.thorough else 1
